@@ -124,7 +124,7 @@ fn points(quick: bool) -> Vec<C> {
         }
     }
     // dense polar sweep and the two sides of every cut along both axes
-    let (nr, na) = if quick { (20, 32) } else { (300, 720) };
+    let (nr, na) = if quick { (20, 32) } else { (1200, 2880) };
     for i in 0..nr {
         let r = 1e-3 * (1e4f64).powf(i as f64 / (nr - 1) as f64);
         for k in 0..na {
@@ -132,7 +132,7 @@ fn points(quick: bool) -> Vec<C> {
             pts.push((r * t.cos(), r * t.sin()));
         }
     }
-    let nline = if quick { 24 } else { 2000 };
+    let nline = if quick { 24 } else { 20000 };
     for i in 0..nline {
         let x = 1e-3 * (1e4f64).powf(i as f64 / (nline - 1) as f64);
         for sx in [1.0, -1.0] {
